@@ -61,6 +61,13 @@ pub fn string_pattern() -> BoxedStrategy<String> {
         1 => Just("*".to_string()),
         1 => needle().prop_map(|n| format!("\"{n}\"")),
         1 => needle().prop_map(|n| format!("'{n}'")),
+        // quotes that do not pair up are ordinary characters
+        1 => (needle(), 0u8..4).prop_map(|(n, k)| match k {
+            0 => format!("\"{n}'"),
+            1 => format!("'{n}\""),
+            2 => format!("\"{n}"),
+            _ => format!("{n}'"),
+        }),
         3 => idx().prop_map(|i| format!("?{}", REGEX_VOCAB[(i as usize * REGEX_VOCAB.len()) >> 16].0)),
     ];
     (form, prop::bool::weighted(0.3))
@@ -648,7 +655,12 @@ pub fn wide_docs(rule: &RuleSpec, picks: &[u16]) -> Vec<DObj> {
         if leaves.is_empty() {
             break;
         }
-        let i = (*p as usize * leaves.len()) >> 16;
+        // every other pick lands in the last sixth of the leaves (beyond 128 / 256 columns)
+        let i = if p % 2 == 0 {
+            (*p as usize * leaves.len()) >> 16
+        } else {
+            leaves.len() - 1 - ((*p as usize * (leaves.len() / 6).max(1)) >> 16)
+        };
         let mut d = DObj::default();
         place(&mut d, &leaves[i], Some(value_for(&leaves[i], true, (*p % 7) as u8)), false);
         // the neighbouring leaf of the same block, so that two-entry blocks can match
@@ -673,7 +685,7 @@ pub fn hay() -> BoxedStrategy<String> {
         3 => "[abcAB1 .]{0,5}",
         2 => prop::sample::select(vec![
             "a", "ab", "abc", "cab", "acb", "xa", "A", "AB", "a12", "true", "false", "1", "5", "1.5", "-1", "",
-            "bab", "a.", "é", "É", "aé",
+            "bab", "a.", "é", "É", "aé", "c\nab", "ab\nc", "a\n", "\na", "\"a'", "'a\"", "\"ab'", "a'",
         ])
         .prop_map(|s| s.to_string()),
         // long haystacks: a needle far from both ends, repeated needles, > 255 bytes
